@@ -133,6 +133,7 @@ def run(chk):
         problems.append('opcode enumeration of mir.h differs from coq/Mir/Opcode.v')
     with vlib.Lock(c02.GENLOCK):
         tr_c20_mir2c.main()
+        probed_notes = list(tr_c20_mir2c.NOTES)
         r = chk.prove()
         exe, oracle, model = build(chk)
     for ax in sorted(set(re.findall(r'^((?:ClassicalDedekindReals|FunctionalExtensionality|Classical_Prop)\.\w+)', r['log'], re.M))):
@@ -140,6 +141,10 @@ def run(chk):
         if t not in chk.cov['trusted_base']:
             chk.cov['trusted_base'].append(t)
     infos = G.opcode_infos(oracle.ask, ops)
+    if probed_notes:
+        chk.cov['rows_read_from_output'] = probed_notes
+        chk.cov['trusted_base'].append('mir2c table: ' + '; '.join(probed_notes) + ' (harness/c02_insn.c mode probe)')
+        chk.log('; '.join(probed_notes)[:300])
     chk.cov['trusted_base'] += ['translator tools/tr_c20_mir2c.py (symbolic execution of the printing code of out_insn; unknown text => SUnknown => theorem fails)',
                                 'Mir/CExpr.v: C11 typing + two\'s-complement machine semantics, GCC __builtin_*_overflow as documented by GCC',
                                 'gcc 12 compiling the emitted C (-O1; thorough: -O0/-O2 and UBSan); extraction: ExtrOcamlBasic only',
